@@ -194,7 +194,7 @@ Definition e_c05_pool_gc (v : val) : val :=
 
 (* the bounded-noise theorems (Props/C05.v, C05_bounded_noise_...): the radius of one bin and the proved constants,
    so that the harness checks the code against the numbers the theorems carry:
-   [eps; flat; ideal value] -> [max (2 eps) |flat - ideal|; 997; 3988; 0.15; 0.075] *)
+   [eps; flat; ideal value] -> [max (2 eps) |flat - ideal|; 62; 248; 0.15; 0.075] *)
 Definition e_c05_noise_bounds (v : val) : val :=
   match getList getQ v with
   | Some [eps; fl; t] =>
